@@ -22,6 +22,7 @@ def bf3_shapes(tier, seed=0):
     S.append([comp(1, []), comp(16, [(0xC4, 2)]), comp(33, [(0xC9, 0)])])
     S.append([comp(4, [(0xC9, 208)])])  # directory-entry limit: 45 + 2 + 208 = 255
     S.append([comp(4, [(0xC1, 100), (0xC2, 106)])])  # limit with two tags
+    S.append([comp(257, [])])  # payload and MAC input longer than 256 bytes (k*256 + 1)
     if tier == "thorough":
         for L in range(1, 49):
             if L not in BOUNDARY_LENS:
